@@ -839,6 +839,20 @@ def builtin_corpus():
             if k < len(hs[e]):
                 sched.append(e)
     L.append({'neng': 3, 'scripts': [script], 'hist': hs, 'sched': sched})
+    # a call suspended on one of its FACTS keeps the definitions that were there when it started: load (overwrite and
+    # chained), register and clear between two next() of the same generator, differently in the two engines
+    s_old = [['p', 1, [[[a('old')], []]]]]
+    s_new = [['p', 1, [[[a('new')], []], [[a('newer')], []]]]]
+    h0 = [['assert', True, 'p', [a('fact')], 0], ['load', True, 0], ['start', 0, 'p', [v(0)]], ['next', 0], ['load', True, 1],
+          ['next', 0], ['next', 0], ['start', 1, 'p', [v(1)]], ['drain', 1]]
+    h1 = [['assert', True, 'p', [a('fact')], 1], ['start', 0, 'p', [v(0)]], ['next', 0], ['load', False, 1], ['register', 'p', 1, [[a('reg')]]],
+          ['next', 0], ['start', 1, 'p', [v(1)]], ['next', 1], ['clear'], ['next', 1], ['next', 1], ['start', 2, 'p', [v(2)]], ['drain', 2]]
+    sched = []
+    for k in range(max(len(h0), len(h1))):
+        for e, h in ((0, h0), (1, h1)):
+            if k < len(h):
+                sched.append(e)
+    L.append({'neng': 2, 'scripts': [s_old, s_new], 'hist': [h0, h1], 'sched': sched})
     return L
 
 # ------------------------------------------------------------------ reporting
